@@ -18,6 +18,9 @@ pub const SITE_CALLBACK: u8 = 1;
 pub const SITE_END: u8 = 2;
 pub const SITE_ELEM: u8 = 3;
 
+/// how long a run may take after the watchdog released it before it is declared hung
+pub const HANG_LIMIT: Duration = Duration::from_secs(8);
+
 pub struct Baton {
     m: Mutex<St>,
     cvs: Vec<Condvar>,
@@ -194,10 +197,14 @@ impl Baton {
     }
 
     /// main thread: wait until all clients are done; release everybody if nothing moves for
-    /// `patience` (a change that blocks the running thread on a lock the simulator does not see)
-    pub fn supervise(&self, patience: Duration) {
+    /// `patience` (a change that blocks the running thread on a lock the simulator does not see).
+    /// Returns false if the clients still have not finished `HANG_LIMIT` after having been
+    /// released: a thread is blocked for good (e.g. it deadlocked with itself on a lock it already
+    /// holds when a strategy callback re-entered the interpolator).
+    pub fn supervise(&self, patience: Duration) -> bool {
         let mut st = self.lock();
         let mut last = st.step;
+        let mut released_at: Option<std::time::Instant> = None;
         while st.n_alive > 0 {
             let (g, to) = self.cv_main.wait_timeout(st, patience).unwrap_or_else(|p| p.into_inner());
             st = g;
@@ -207,13 +214,20 @@ impl Baton {
             if to.timed_out() {
                 if st.step == last && !st.free_run {
                     st.free_run = true;
+                    released_at = Some(std::time::Instant::now());
                     for cv in &self.cvs {
                         cv.notify_all();
                     }
                 }
                 last = st.step;
             }
+            if let Some(t) = released_at {
+                if t.elapsed() > HANG_LIMIT {
+                    return false;
+                }
+            }
         }
+        true
     }
 
     pub fn summary(&self) -> Summary {
@@ -240,6 +254,11 @@ pub fn yield_now(site: u8) -> bool {
         Some((b, me)) => unsafe { (*b).yield_here(me, site) },
         None => false,
     }
+}
+
+/// true on a logical client thread of a run in progress (somebody supervises it)
+pub fn on_client_thread() -> bool {
+    ME.with(|c| c.get()).is_some()
 }
 
 fn choose(st: &mut St, me: usize) -> usize {
